@@ -130,7 +130,7 @@ def d2(ctx, F):
                               "in %s an unrecoverable error is returned at once (no further attempt)" % who, c.span)
     # pub/sub exhaustion
     od = F.body(KA + "pubsub::KeepAlive::<T>::on_disconnect")
-    nexts = [c for c in od.calls() if strip_generics(c.callee) == ITER_NEXT]
+    nexts = [c for c in od.calls() if strip_generics(c.callee) == ITER_NEXT and ("NextAttempt" in c.self_ty or "BackoffStrategyIter" in c.self_ty) and not c.macros]
     ctx.floor("C12.D2.exhaustion-pubsub.consumers", len(nexts), 1)
     for c in nexts:
         arm, m = none_arm(od, c)
